@@ -122,20 +122,28 @@ void ep4_norm_sim(ep4_t *r, const ep4_t *t, int n) {
 			fp4_null(a[i]);
 			fp4_new(a[i]);
 			fp4_copy(a[i], t[i]->z);
+			if (ep4_is_infty(t[i])) {
+				/* Keep the point at infinity out of the inversion. */
+				fp4_set_dig(a[i], 1);
+			}
 		}
 
 		fp4_inv_sim(a, (const fp4_t *)a, n);
 
 		for (i = 0; i < n; i++) {
+			if (ep4_is_infty(t[i])) {
+				ep4_set_infty(r[i]);
+				continue;
+			}
 			fp4_copy(r[i]->x, t[i]->x);
 			fp4_copy(r[i]->y, t[i]->y);
-			if (!ep4_is_infty(t[i])) {
-				fp4_copy(r[i]->z, a[i]);
-			}
+			fp4_copy(r[i]->z, a[i]);
 		}
 #if EP_ADD == PROJC || EP_ADD == JACOB || !defined(STRIP)
 		for (i = 0; i < n; i++) {
-			ep4_norm_imp(r[i], r[i], 1);
+			if (!ep4_is_infty(r[i])) {
+				ep4_norm_imp(r[i], r[i], 1);
+			}
 		}
 #endif /* EP_ADD == PROJC */
 	}
